@@ -310,3 +310,9 @@ func FSList() []string {
 // ParsedSources returns [name0, text0, name1, text1, ...] of everything handed
 // to the (stubbed) Go parser on this path (engine only; nil natively).
 func ParsedSources() []string { return nil }
+
+// Or / And / Not evaluate both operands (no short-circuit): under the engine
+// they build one Boolean term instead of forking the path.
+func Or(a, b bool) bool  { return a || b }
+func And(a, b bool) bool { return a && b }
+func Not(a bool) bool    { return !a }
